@@ -74,12 +74,12 @@ Definition wf_req (q : wfreq) : bool :=
   && sizes_ok q.
 
 (* side conditions on the environment of the request (not on the request itself):
-   READ needs room for the reply header; READDIR(PLUS) needs a reply buffer at least as large as
-   the requested size; the DAX opcodes need the transport to have passed a mapping handler *)
+   READ needs room for the reply header; READDIR(PLUS) needs a reply buffer with room for the
+   requested size and the reply header (the gate of do_readdir since fix 65c0776); the DAX opcodes need the transport to have passed a mapping handler *)
 Definition env_ok (cfg : config) (cap : N) (q : wfreq) : bool :=
   match q_op q with
   | 15 => OUT_HDR <=? cap
-  | 28 | 44 => (OUT_HDR <=? cap) && (fld q "size" <=? cap)
+  | 28 | 44 => fld q "size" + OUT_HDR <=? cap
   | 48 | 49 => cfg_vu_req cfg
   | _ => true
   end.
